@@ -64,7 +64,10 @@ def _fid(cls, meth=None):
 
 
 def _short(v, n=70):
-    s = repr(v).replace('\n', ' ')
+    try:
+        s = repr(v).replace('\n', ' ')
+    except Exception as e:
+        s = f'<{type(v).__name__}: repr raised {type(e).__name__}>'
     return s if len(s) <= n else s[: n - 3] + '...'
 
 
@@ -406,14 +409,16 @@ def _check_spec(spec, tier):
         cases += 1
         nontriv += 1
         for fid, clause, ok, detail in _unary(spec, ent.obj, ent, base.obj if base else None):
-            note(fid, clause, ok, f'x = {ent.label} ({_short(ent.obj, 80)}): ' + detail,
-                 {'kind': 'unary', 'x': ent.label})
+            if not ok:
+                note(fid, clause, ok, f'x = {ent.label} ({_short(ent.obj, 80)}): ' + detail,
+                     {'kind': 'unary', 'x': ent.label})
     res, neq = _pairwise(spec, ents)
     cases += len(ents) * (len(ents) - 1)
     nontriv += neq
     for fid, clause, ok, detail, i, j in res:
-        note(fid, clause, ok, f'x = {ents[i].label}, y = {ents[j].label}: ' + detail,
-             {'kind': 'pair', 'x': ents[i].label, 'y': ents[j].label})
+        if not ok:
+            note(fid, clause, ok, f'x = {ents[i].label}, y = {ents[j].label}: ' + detail,
+                 {'kind': 'pair', 'x': ents[i].label, 'y': ents[j].label})
     if spec.wf is not None:
         for case_id, thunk in spec.wf(tier):
             cases += 1
